@@ -32,7 +32,7 @@ def ord_expr(o: dict) -> str:
     return f"order({o['k']}={o['x']!r})"
 
 
-def class_source(case: dict, hier: bool = False) -> str:
+def class_source(case: dict, hier: bool = False, resolver: bool = False) -> str:
     """With `hier` (no class-level override), the class is split anyway: the first fields and the FIRST serialized
     method are declared by a base class -- the order of the elements is the same."""
     elts = case["elts"]
@@ -40,7 +40,8 @@ def class_source(case: dict, hier: bool = False) -> str:
     methods = [e for e in elts if e["method"]]
     base_ov, sub_ov = case.get("ovs", [[], []])
     split = (len(fields) + 1) // 2 if (base_ov or sub_ov or hier) else len(fields)
-    lines = ["from dataclasses import dataclass, field", "from apischema import order, serialized", ""]
+    lines = ["from dataclasses import dataclass, field", "from apischema import order, serialized",
+             "from apischema.graphql import resolver", ""]
 
     def ov_deco(ov):
         if not ov:
@@ -55,6 +56,8 @@ def class_source(case: dict, hier: bool = False) -> str:
 
     def meth(e):
         oe = ord_expr(e["ord"])
+        if resolver:      # a resolver that is ALSO a serialized method: an element of the GraphQL view too
+            return [f"    @resolver(serialized=True" + (f", order={oe}" if oe else "") + ")", f"    def {e['name']}(self) -> int:", "        return 1"]
         return [f"    @serialized(" + (f"order={oe}" if oe else "") + ")", f"    def {e['name']}(self) -> int:", "        return 1"]
 
     if base_ov or sub_ov or hier:
@@ -78,7 +81,7 @@ def class_source(case: dict, hier: bool = False) -> str:
     return "\n".join(lines) + "\n"
 
 
-def views(case: dict, hier: bool = False) -> Dict[str, Any]:
+def views(case: dict, hier: bool = False, resolver: bool = False) -> Dict[str, Any]:
     """The four views of the order in the real code."""
     import apischema.cache
     from apischema import serialize
@@ -91,7 +94,7 @@ def views(case: dict, hier: bool = False) -> Dict[str, Any]:
     sys.modules[name] = mod
     out: Dict[str, Any] = {}
     try:
-        exec(compile(class_source(case, hier), f"<{name}>", "exec"), mod.__dict__)
+        exec(compile(class_source(case, hier, resolver), f"<{name}>", "exec"), mod.__dict__)
         K = mod.K
         for view, fn in (("serialize", lambda: list(serialize(K, K()))),
                          ("serialization_schema", lambda: list(serialization_schema(K).get("properties", {}))),
@@ -135,17 +138,19 @@ def main() -> int:
         cases = [json.loads(json.loads(p)) for p in r.prints if p.startswith('"')]
         if not thorough and len(cases) > 6000:
             cases = rng.sample(cases, 6000)
-        variants = [(c, False) for c in cases]
+        variants = [(c, False, False) for c in cases]
         if NM >= 2 and not ov:       # the same specifications with the elements spread over a base class and the class
-            variants += [(c, True) for c in cases]
-        for c, hier in variants:
-            got = views(c, hier)
+            variants += [(c, True, False) for c in cases]
+        if NM == 1 and N == 3 and not ov:   # ... and with the method declared as @resolver(serialized=True, order=...)
+            variants += [(c, False, True) for c in cases]
+        for c, hier, as_resolver in variants:
+            got = views(c, hier, as_resolver)
             n += 1
             distinct.add(json.dumps([c["elts"], c.get("ovs")]))
             for view, actual in got.items():
                 # serialized methods are not elements of the deserialization schema nor of GraphQL output
                 # types (only resolvers are): in those views an ordering that targets a method is dangling
-                fields_only = view in ("deserialization_schema", "graphql")
+                fields_only = view == "deserialization_schema" or (view == "graphql" and not as_resolver)
                 expected = c["order_fields"] if fields_only else c["order"]
                 wf = c["wf_fields"] if fields_only else c["wf"]
                 if isinstance(actual, str) and actual.startswith("error:"):
@@ -159,7 +164,7 @@ def main() -> int:
                                       finding_key="F-order-orphans")
                     continue
                 rep.violation(f"{view}: order {actual} instead of {expected} (well-formed={wf})",
-                              {"case": c, "view": view, "expected": expected, "actual": actual, "hier": hier, "source": class_source(c, hier)})
+                              {"case": c, "view": view, "expected": expected, "actual": actual, "hier": hier, "resolver": as_resolver, "source": class_source(c, hier, as_resolver)})
             if n % 1501 == 1:
                 rep.sample({"elts": c["elts"], "ovs": c.get("ovs"), "expected": c["order"], "views": got})
     # negative model check: the transcription of sort_by_order loses orphans / cycles
